@@ -114,9 +114,13 @@ func (a *Assemble) append(identifier string) error {
 			// Treat as literal, could be start of a group or a range expresssion.
 			// Those can not be parsed by rassemble-go, since they are not valid
 			// expressions.
-			verifhook.Emit("literal", a.proc.lines, "")
-			a.output.WriteString(a.proc.lines[0])
-			a.proc.lines = []string{}
+			// A line that is an expression of its own is assembled like any
+			// other input, so that it is grouped and acts as a single unit.
+			if _, err := rassemble.Join(a.proc.lines); err != nil {
+				verifhook.Emit("literal", a.proc.lines, "")
+				a.output.WriteString(a.proc.lines[0])
+				a.proc.lines = []string{}
+			}
 		}
 		regex, err := a.runAssemble()
 		if err != nil {
